@@ -494,6 +494,14 @@ class SymExec:
     def loop_summary(self, head, st):
         """Recognise a counting/index loop at `head`; returns (exit node id, state) or None."""
         stmt = head.stmt
+        if stmt is not None and stmt.get('k') == 'while' and 'c' in stmt and stmt.get('body', {}).get('k') == 'compound' and \
+                stmt['body'].get('body') and not any(x.get('k') == 'continue' for x in walk(stmt['body'])):
+            # while (i < B) { ...; i++; } is the for loop with that step, as long as nothing jumps over the step
+            last = stmt['body']['body'][-1]
+            l0 = strip_casts(last)
+            if l0.get('k') == 'un' and l0['op'] in ('post++', 'pre++') and is_ref(l0['e']):
+                stmt = {'k': 'for', 'c': stmt['c'], 'inc': last, 'id': stmt['id'], 'loc': stmt.get('loc'),
+                        'body': {'k': 'compound', 'id': stmt['body']['id'], 'loc': stmt['body'].get('loc'), 'body': stmt['body']['body'][:-1]}}
         if stmt is None or stmt.get('k') != 'for' or 'c' not in stmt or 'inc' not in stmt:
             return None
         p = None
